@@ -901,6 +901,7 @@ func c08UnaryInproc(c *core.Ctx, key string, fn *ssa.Function) {
 		"channel-closed arm "+bad)
 	// nil handler result ⇒ error frame (server goroutine)
 	okNil := false
+	nilPreds := map[*ssa.Function]bool{}
 	core.InstrsDeep(outer, func(f *ssa.Function, in ssa.Instruction) {
 		call, ok := in.(*ssa.Call)
 		if !ok || f == outer {
@@ -917,7 +918,13 @@ func c08UnaryInproc(c *core.Ctx, key string, fn *ssa.Function) {
 						return false
 					}
 					ic, ok := fc.X.(*ssa.Call)
-					return ok && len(ic.Call.Args) == 1 && sameOrigins(ic.Call.Args[0], dv)
+					if ok && len(ic.Call.Args) == 1 && sameOrigins(ic.Call.Args[0], dv) {
+						if pf := ic.Call.StaticCallee(); pf != nil && pf.Blocks != nil {
+							nilPreds[pf] = true
+						}
+						return true
+					}
+					return false
 				}) {
 					okNil = true
 				}
@@ -925,6 +932,73 @@ func c08UnaryInproc(c *core.Ctx, key string, fn *ssa.Function) {
 		}
 	})
 	c.Check(okNil, key+":nil-response-check", fn.Pos(), "the data frame is written only on the !isNil(result) edge", "the handler's result is sent as a data frame without a nil check (a nil response with nil error would end the call without response or error)")
+	// ... and the predicate recognises both forms of 'no response': the untyped nil and the typed nil pointer
+	// (what a generated handler returning (*T)(nil) puts into the interface)
+	for pf := range nilPreds {
+		why := nilPredicateSound(pf)
+		c.Check(why == "", core.FuncName(pf)+":nil-predicate", pf.Pos(), "true for the nil interface and for a nil pointer inside the interface (reflect Kind Ptr and IsNil)", "the predicate that decides 'the handler returned no response' "+why+": a handler returning a typed nil pointer (or plain nil) with a nil error would be taken to have responded")
+	}
+}
+
+// nilPredicateSound: fn(m interface{}) bool returns true when m == nil, and
+// the result of reflect.ValueOf(m).IsNil() on the edge where the value's Kind
+// is reflect.Ptr. It returns "" or what is missing.
+func nilPredicateSound(fn *ssa.Function) string {
+	if len(fn.Params) != 1 {
+		return "does not take exactly the value to test"
+	}
+	par := fn.Params[0]
+	trueOnNil := false
+	for _, r := range core.Returns(fn) {
+		if len(r.Results) != 1 {
+			return "does not return one bool"
+		}
+		if b, ok := core.ConstBool(r.Results[0]); ok && b {
+			if core.GuardedBy(r, func(f core.Fact) bool {
+				return f.Op == token.EQL && core.IsNilConst(f.Y) && core.ResolveFree(core.Strip(f.X)) == ssa.Value(par)
+			}) {
+				trueOnNil = true
+			}
+		}
+	}
+	if !trueOnNil {
+		return "does not answer true on the edge where the value compares equal to nil"
+	}
+	isValueOfPar := func(v ssa.Value) bool {
+		return core.OriginIs(v, func(o ssa.Value) bool {
+			call, ok := core.Strip(o).(*ssa.Call)
+			return ok && core.InfoOf(&call.Call).Is("reflect.ValueOf") && len(call.Call.Args) == 1 && core.OriginIs(call.Call.Args[0], func(a ssa.Value) bool { return core.ResolveFree(core.Strip(a)) == ssa.Value(par) })
+		})
+	}
+	var isNilCall *ssa.Call
+	core.Instrs(fn, func(in ssa.Instruction) {
+		call, ok := in.(*ssa.Call)
+		if !ok || !core.InfoOf(&call.Call).Is("reflect.Value.IsNil") || len(call.Call.Args) != 1 || !isValueOfPar(call.Call.Args[0]) {
+			return
+		}
+		if core.GuardedBy(call, func(f core.Fact) bool {
+			if f.Op != token.EQL {
+				return false
+			}
+			k, ok := core.ConstInt(f.Y)
+			if !ok || k != 22 { // reflect.Ptr
+				return false
+			}
+			kc, ok := core.Strip(f.X).(*ssa.Call)
+			return ok && core.InfoOf(&kc.Call).Is("reflect.Value.Kind") && len(kc.Call.Args) == 1 && isValueOfPar(kc.Call.Args[0])
+		}) {
+			isNilCall = call
+		}
+	})
+	if isNilCall == nil {
+		return "does not ask reflect for IsNil on the edge where the value's Kind is Ptr"
+	}
+	for _, r := range core.Returns(fn) {
+		if core.OriginIs(r.Results[0], func(o ssa.Value) bool { return core.Strip(o) == ssa.Value(isNilCall) }) {
+			return ""
+		}
+	}
+	return "does not return what IsNil answers for a pointer"
 }
 
 // frameFieldValue: v is a load of a local frame composite literal; returns
